@@ -8,6 +8,11 @@ from __future__ import annotations
 
 import ast
 import itertools
+import json
+
+
+def json_dumps(x):
+    return json.dumps(x, sort_keys=True)
 
 ID = "C09"
 LEVEL = "model_checking"
@@ -41,7 +46,7 @@ ASSERTED = ["assert 8 <= snapshot(5)", "assert 7 == snapshot()", "assert 5 == sn
 
 
 def bounds(tier):
-    return {"programs": len(_programs(tier)), "max_slots": 3, "plugin_programs": 12 if tier == "quick" else 80}
+    return {"multi_file_projects": len(MULTI), "programs": len(_programs(tier)), "max_slots": 3, "plugin_programs": 12 if tier == "quick" else 80}
 
 
 def _programs(tier):
@@ -89,6 +94,8 @@ def _programs(tier):
     # separate call sites
     # sites whose new code needs an import (external by create, HasRepr by fix, and the other way round)
     for combo in (("ext", "hasreprfix"), ("hasrepr", "extfix"), ("ext", "hasreprfix", "update"), ("hasrepr", "extfix", "trim"), ("ext", "extfix"), ("hasrepr", "hasreprfix")):
+        progs.append({"sh": "sites", "s": list(combo)})
+    for combo in (("fti", "fti2"), ("fti", "fti2", "create"), ("fti", "ftsub"), ("ftsub", "fti", "update"), ("fti2", "fix", "fti"), ("fti", "trim", "fti2", "fix")):
         progs.append({"sh": "sites", "s": list(combo)})
     sites = ("create", "fix", "trim", "update", "trimin", "fixl", "updl")
     for k in (2, 3, 4):
@@ -173,7 +180,8 @@ def source(p):
         body = [ASSERTED[i] for i in p["s"]]
     elif sh == "sites":
         st = {"create": "_ok = 5 == snapshot()", "fix": "_ok = 5 == snapshot(6)", "trim": "_ok = 5 <= snapshot(9)", "update": "_ok = 5 == snapshot(5+0)",
-              "trimin": "_ok = 5 in snapshot([5, 6+0])", "fixl": "_ok = [5, 6] == snapshot([5+0])", "updl": "_ok = [5, 6] == snapshot([5, 6+0])",
+              "trimin": "_ok = 5 in snapshot([5, 6+0])", "fti": "_ok = 5 in snapshot([4])", "fti2": "_ok = 'b' in snapshot(['a'])",
+              "ftsub": "s = snapshot({'old': 1}); _ok = s['new'] == 2", "fixl": "_ok = [5, 6] == snapshot([5+0])", "updl": "_ok = [5, 6] == snapshot([5, 6+0])",
               "hasrepr": "_ok = Opaque(1) == snapshot()", "hasreprfix": "_ok = Opaque(2) == snapshot(0)",
               "ext": "_ok = outsource('data-1') == snapshot()", "extfix": "_ok = outsource('data-2') == snapshot(0)"}
         out = pre
@@ -181,9 +189,68 @@ def source(p):
             out = ("from inline_snapshot import snapshot, outsource\n\n\nclass Opaque:\n    def __init__(self, n):\n        self.n = n\n    def __repr__(self):\n        return '<Opaque %d>' % self.n\n"
                    "    def __eq__(self, o):\n        return self.n == o.n if isinstance(o, Opaque) else NotImplemented\n\n\n")
         for i, k in enumerate(p["s"]):
-            out += "def test_%d():\n    %s\n\n\n" % (i, st[k])
+            out += "def test_%d():\n    %s\n\n\n" % (i, st[k].replace("; ", "\n    "))
         return out
     return pre + "def test_0():\n" + "".join("    " + b + "\n" for b in body)
+
+
+MULTI = [  # file -> site kinds; categories are spread unevenly over the files
+    {"test_a.py": ["create", "fix"], "test_b.py": ["create"]},
+    {"test_a.py": ["create"], "test_b.py": ["create", "fix"]},
+    {"test_a.py": ["fix", "trim"], "test_b.py": ["fix"], "test_c.py": ["create"]},
+    {"test_a.py": ["create", "update"], "test_b.py": ["trim"], "test_c.py": ["create"]},
+    {"test_a.py": ["fti", "fti2"], "test_b.py": ["fix"]},
+    {"test_a.py": ["trim"], "test_b.py": ["fix", "fti"], "test_c.py": ["update", "create"]},
+]
+
+
+def _multi_explore(m):
+    """All orders of single-category sessions plus the joint session on a multi-file project (real plugin)."""
+    from ..drivers import plugin
+
+    files0 = {}
+    for fn, kinds in m.items():
+        files0[fn] = source({"sh": "sites", "s": kinds})
+    case = {"multi": m}
+
+    def step(files, flags):
+        d = plugin.mk_project(dict(files, **{"pyproject.toml": ""}))
+        try:
+            r = plugin.session(d, ["--inline-snapshot=" + ",".join(flags + ["report"])])
+            after = {k: v for k, v in plugin.listing(d, text=True).items() if k.endswith(".py")}
+        finally:
+            plugin.cleanup()
+        if plugin.internal_error(r["out"]) or r["rc"] not in (0, 1):
+            return None, None, "rc=%s %s" % (r["rc"], r["out"][-500:])
+        return after, plugin.report_sections(r["out"]), None
+
+    info = {"P": [], "states": set(), "transitions": 0}
+    _, rep, err = step(files0, [])
+    info["transitions"] += 1
+    if err:
+        return [{"case": case, "what": "internal-error", "detail": err}], info
+    P = [c for c in CATS if c in rep]
+    info["P"] = P
+    finals = {}
+    joint, _, err = step(files0, P)
+    info["transitions"] += 1
+    if err:
+        return [{"case": case, "what": "internal-error", "detail": "joint %s: %s" % (P, err)}], info
+    key = lambda fs: tuple(sorted((k, _norm(v)) for k, v in fs.items()))  # noqa
+    finals[key(joint)] = ("joint " + "+".join(P), joint)
+    for order in itertools.permutations(P):
+        cur = files0
+        for c in order:
+            cur, _, err = step(cur, [c])
+            info["transitions"] += 1
+            if err:
+                return [{"case": case, "what": "internal-error", "detail": "order %s at %s: %s" % (order, c, err)}], info
+            info["states"].add(repr(sorted(cur.items())))
+        finals.setdefault(key(cur), (" -> ".join(order), cur))
+    if len(finals) > 1:
+        desc = "\n".join("[%s]\n%s" % (how, "\n".join("%s: %s" % (k, _tail(v)) for k, v in sorted(fs.items()))) for how, fs in finals.values())
+        return [{"case": case, "what": "order-dependent-result", "detail": "pending %s; %d different final projects:\n%s" % (P, len(finals), desc[:1500])}], info
+    return [], info
 
 
 def build(tier, seed):
@@ -192,6 +259,8 @@ def build(tier, seed):
     step = max(1, len(progs) // (12 if tier == "quick" else 80))
     sel = [p for p in progs if p["sh"] in ("sub", "sites", "in")][::step][: (12 if tier == "quick" else 80)]
     tasks += [{"progs": [p], "drv": "plugin"} for p in sel]
+    tasks += [{"progs": [p], "drv": "plugin"} for p in progs if p["sh"] == "sites" and any(k in ("fti", "ftsub") for k in p["s"])]
+    tasks += [{"multi": m} for m in MULTI]
     return tasks
 
 
@@ -311,11 +380,25 @@ def _tail(t):
 
 
 def run_case(case):
+    if "multi" in case:
+        return _multi_explore(case["multi"])[0]
     return explore_program(case["prog"], case["drv"])[0]
 
 
 def run_task(task):
     out = {"n": 0, "nontrivial": [], "outcomes": {}, "violations": [], "samples": [], "states": [], "transitions": 0, "validated": 0}
+    if "multi" in task:
+        viol, info = _multi_explore(task["multi"])
+        out["n"] = 1
+        out["transitions"] = info["transitions"]
+        out["states"] = list(info["states"])
+        out["violations"] = viol
+        lab = "viol:" + viol[0]["what"] if viol else "multi-file:P=%d" % len(info["P"])
+        if not viol:
+            out["validated"] = 1
+            out["nontrivial"].append("multi" + json_dumps(task["multi"]))
+        out["outcomes"][lab] = 1
+        return out
     for p in task["progs"]:
         viol, info = explore_program(p, task["drv"])
         out["n"] += 1
